@@ -12,6 +12,9 @@ Streams
   sweep    : EVERY N in 1..60 in every run (oracle only): output lengths N / N+1 of s_stretch (three curves, both
              staggers) and sdepth (both Vtransforms), range, strict increase, interleaving; Grid from Vinfo has N levels.
   interval : Coq goals  Rabs (Cs vs ts tb (S N k) - <python value>) <= 1e-10  closed by the `interval` tactic.
+  scale    : fixed cases at realistic size, first in every run (c12_scale.py, oracle only): z2s on 1000..262145
+             scattered particles, Forcing.update on growing / shrinking states of up to 10^5 particles, > 1000
+             consecutive updates between forcing frames, level clauses on bathymetries of 10^5 cells.
 """
 from __future__ import annotations
 
@@ -22,6 +25,7 @@ from pathlib import Path
 
 import numpy as np
 
+import c12_scale
 import romsfiles as rf
 from coqbridge import COQ, fl
 
@@ -36,7 +40,11 @@ RULE = ("sdepth: interleaved stretching arrays (dyadic exact stream, N in {1,2,4
         "incl. upper half of a cell and .5 ties, depths above/inside/below/on a level; kernel: one column N in 2..60 "
         "(plus N = 1, model comparison only); grid: Grid from file and from Vinfo (Vstretching 1/2/4, Vtransform "
         "1/2, default keys omitted); sweep: every N in 1..60 each run, structural facts (lengths N / N+1, range, strict "
-        "increase, interleaving) of s_stretch x3 curves, sdepth x2 transforms and a Grid from Vinfo, oracle only; interval: sampled s_stretch values against the R model. Non-trivial = distinct "
+        "increase, interleaving) of s_stretch x3 curves, sdepth x2 transforms and a Grid from Vinfo, oracle only; interval: sampled s_stretch values against the R model; "
+        "scale (fixed, every run, oracle only): z2s on 1000..262145 particles in random / reversed-cell / clustered order over "
+        "40x30..131x67 columns of 20 m..5000 m (N 2..60), Forcing.update on 1025..130000 particles with shuffles, a release and "
+        "a removal between updates, 1250 consecutive updates at a tenth of the frame interval, level clauses in every cell of "
+        "bathymetries up to 513x257. Non-trivial = distinct "
         "parameter tuple of a stream (for z2s/kernel: distinct (column, depth class) combination).")
 TRUSTED = ["Coq 8.16.1 kernel + vm_compute", "coq-interval tactic (proof terms re-checked by the kernel at Qed)",
            "hand-written models coq/Model/VGrid.v (Q) and coq/Model/VStretch.v (R) tied by this correspondence",
@@ -249,7 +257,7 @@ def gen_interval(rng, n):
 def gen_cases(ctx):
     rng = ctx.rng
     f = 1 if ctx.quick else 10
-    out = []
+    out = list(c12_scale.gen_scale_cases(ctx))  # fixed cases of realistic size, always first
     for i in range(40 * f):
         out.append(dict(gen_sdepth(rng, exact=(i % 2 == 0)), layout=["C", "F", "T", "F"][i % 4]))
     # fixed: a 2 x 3 bathymetry with six different depths in Fortran order and as a transposed view
@@ -748,6 +756,8 @@ def eval_forcing(desc, ctx):
 
 def eval_case(desc, ctx):
     k = desc["k"]
+    if k == "scale":
+        return c12_scale.eval_scale(desc, ctx)
     if k == "fz2s":
         # the floating-point model of the level search (Model/VerticalFloat.v): the compiled z2s_kernel, K and the
         # weight bit for bit (leading -9: Corr/C12All -> Corr/VertF), 1 <= K <= N-1 and 0 <= A <= 1 EXACTLY
